@@ -279,7 +279,9 @@ class _EulerBernoulli(_GroupElem):
         P = np.zeros((self.Ne, 3, 3))
         for beam in beamStructure.beams:
             elems = self.Get_Elements_Tag(beam.name)
-            P[elems] = beam._Calc_P()
+            # _Calc_P maps beam to global coordinates, here the global dofs are
+            # expressed in the beam axes: u_beam = P^T u_global
+            P[elems] = beam._Calc_P().T
 
         P_e_pg = FeArray.zeros(Ne, 1, dof_n * nPe, dof_n * nPe)
         N = P.shape[-1]
